@@ -1136,7 +1136,58 @@ def check_C17(ctx):
     return finish_with_proofs(ctx)
 
 
-CHECKS = {'C01': check_C01, 'C02': check_C02, 'C07': check_C07, 'C09': check_C09, 'C16': check_C16, 'C17': check_C17, 'C08': check_C08, 'C10': check_C10, 'C11': check_C11, 'C03': check_C03, 'C04': check_C04, 'C05': check_C05, 'C06': check_C06}
+# ------------------------------------------------------------------ C18 -----
+def check_C18(ctx):
+    proofs_or_violation(ctx, ['Properties_C18.v'])
+    pool = get_pool()
+    rng = ctx.rng
+    cases = []
+    keys = [(0, 0), (nopgen.TABLE_K0, nopgen.TABLE_K1), (0xdeadcafebaadf00d, 0x0123456789abcdef), (2 ** 64 - 1, 2 ** 64 - 1),
+            (0x0706050403020100, 0x0f0e0d0c0b0a0908)] + [(rng.getrandbits(64), rng.getrandbits(64)) for _ in range(3 if ctx.quick else 30)]
+    for n in list(range(0, 301)):
+        reps = 1 if ctx.quick else 4
+        for _ in range(reps):
+            data = bytes(rng.choice([rng.randrange(256), rng.randrange(128, 256), 0, 0xff]) for _ in range(n))
+            for k0, k1 in (keys if n <= 40 or not ctx.quick else keys[:3]):
+                cases.append((data, k0, k1))
+    lines = ['sip %s %d %d' % (d.hex() or '-', k0, k1) for d, k0, k1 in cases]
+    ho = run_prim(pool, lines)
+    mo = run_driver(pool, lines)
+    for (d, k0, k1), line, o, m in zip(cases, lines, ho, mo):
+        ctx.count('runtime', line[:120])
+        if o.startswith(('CRASH', 'HARNESS', 'EXCEPTION', 'OOM')):
+            ctx.violate('memory-error', 'SipHash crashed: %s -> %s' % (line[:100], o[:200]), {'case': line, 'output': o})
+            continue
+        f, g = sx.fields(o), sx.fields(m)
+        ref = nopgen.siphash24(d, k0, k1)
+        if int(f['h']) != ref or f['hchar'] != f['h']:
+            ctx.violate('not-siphash', 'SipHash::Compute differs from SipHash-2-4 for a %d-byte input (key %x,%x): got %s (char elements %s), standard %d'
+                        % (len(d), k0, k1, f['h'], f['hchar'], ref), {'case': line, 'output': o, 'standard': ref})
+        elif g.get('h') != f['h'] or g.get('spec') != f['h']:
+            ctx.violate('corr:siphash', 'model SipHash disagrees: %s vs %s' % (m, o), {'no_failing_input': True, 'case': line, 'model': m, 'output': o})
+    # compile-time values of generated names: table hash, interface hash, 64- and 32-bit selectors
+    names = run_prim(pool, ['sipnames'])[0]
+    if not names.startswith('names='):
+        ctx.violate('harness-crash', 'sipnames failed: ' + names[:200], {'output': names})
+    else:
+        ents = names[6:].split(',')
+        mo = run_driver(pool, ['sipname %s' % e.split(':')[0] for e in ents])
+        for e, m in zip(ents, mo):
+            ctx.count('compile-time', e)
+            hx, tab, iface, s64, s32 = e.split(':')
+            nm = (bytes.fromhex(hx) if hx != '-' else b'') + b'\0'
+            want = [nopgen.siphash24(nm, nopgen.TABLE_K0, nopgen.TABLE_K1), nopgen.siphash24(nm, 0xdeadcafebaadf00d, 0x0123456789abcdef),
+                    nopgen.siphash24(nm, 0x1234567890abcdef, 0x0123456789abcdef)]
+            want.append(want[2] & 0xffffffff)
+            got = [int(tab), int(iface), int(s64), int(s32)]
+            if got != want:
+                ctx.violate('compile-time-hash', 'compile-time hash/selector of name %s is %s, SipHash-2-4 of the name gives %s' % (hx, got, want), {'name_hex': hx, 'got': got, 'want': want})
+            elif m != e:
+                ctx.violate('corr:sipname', 'model hash of name %s disagrees: %s vs %s' % (hx, m, e), {'no_failing_input': True, 'model': m, 'impl': e})
+    return finish_with_proofs(ctx)
+
+
+CHECKS = {'C01': check_C01, 'C02': check_C02, 'C07': check_C07, 'C09': check_C09, 'C16': check_C16, 'C17': check_C17, 'C18': check_C18, 'C08': check_C08, 'C10': check_C10, 'C11': check_C11, 'C03': check_C03, 'C04': check_C04, 'C05': check_C05, 'C06': check_C06}
 
 
 def run(pid, tier, seed, replay=None):
